@@ -19,6 +19,7 @@ def showExc : Exc → String
   | .other 1 => "E1"
   | .other 2 => "E2"
   | .other 3 => "BE"
+  | .other 4 => "E1s"
   | .other n => s!"X{n}"
 
 def parseExc (s : String) : Option Exc :=
@@ -28,6 +29,7 @@ def parseExc (s : String) : Option Exc :=
   | "E1" => some (.other 1)
   | "E2" => some (.other 2)
   | "BE" => some (.other 3)
+  | "E1s" => some (.other 4)
   | "RT" => some (.runtime 0)
   | "TE" => some .typeErr
   | "SAI" => some .stopAsync
